@@ -179,8 +179,9 @@ def std_facts(prog, f, g=None, extra_kill=None, attr_kill=None, expand=True):
   if not expand:
     return g, facts1
 
-  def expanded_test(node):
+  def expanded_test(node, kinds=None):
     """The branch condition with boolean temporaries replaced by their (must-)definitions."""
+    kinds = kinds or (ast.BoolOp, ast.Compare, ast.UnaryOp, ast.Call, ast.Attribute, ast.Name, ast.Subscript)
     defs = {f_[1]: f_[2] for f_ in facts1[node.id] if f_[0] == 'def'}
     changed = [False]
 
@@ -193,7 +194,7 @@ def std_facts(prog, f, g=None, extra_kill=None, attr_kill=None, expand=True):
           e = ast.parse(d, mode='eval').body
         except SyntaxError:
           return n
-        if isinstance(e, (ast.BoolOp, ast.Compare, ast.UnaryOp, ast.Call, ast.Attribute, ast.Name, ast.Subscript)) and n.id not in {x.id for x in ast.walk(e) if isinstance(x, ast.Name)}:
+        if isinstance(e, kinds) and n.id not in {x.id for x in ast.walk(e) if isinstance(x, ast.Name)}:
           if isinstance(e, ast.Call) and isinstance(e.func, ast.Attribute) and e.func.attr in _MUT:
             return n
           changed[0] = True
@@ -209,6 +210,7 @@ def std_facts(prog, f, g=None, extra_kill=None, attr_kill=None, expand=True):
     return t
 
   cache = {}
+  cache_b = {}
 
   def edge_facts2(node, kind):
     out = list(edge_facts(node, kind))
@@ -221,9 +223,51 @@ def std_facts(prog, f, g=None, extra_kill=None, attr_kill=None, expand=True):
       t = cache[node.id]
       if t is not None and u(t) != u(node.ast):
         out.extend(('c', tx, p) for tx, p in decompose(t, kind == 'T'))
+      if node.id not in cache_b:
+        try:
+          cache_b[node.id] = expanded_test(node, (ast.BoolOp, ast.Compare, ast.UnaryOp))
+        except Exception:
+          cache_b[node.id] = None
+      tb = cache_b[node.id]
+      if tb is not None and u(tb) != u(node.ast) and (t is None or u(tb) != u(t)):
+        out.extend(('c', tx, p) for tx, p in decompose(tb, kind == 'T'))
     return out
 
-  return g, g.must_facts(edge_facts2, kill)
+  facts2 = g.must_facts(edge_facts2, kill)
+  g.expanded = cache      # test node id -> condition with temporaries replaced by their definitions
+  g.expanded_bool = cache_b   # ... with only boolean-valued temporaries replaced
+  return g, facts2
+
+
+def expand_expr(fs, e, keep=()):
+  """`e` (an ast expression) with local temporaries replaced by their
+  must-definitions from the fact set `fs`; returns a fresh ast."""
+  defs = {f_[1]: f_[2] for f_ in fs if f_[0] == 'def'}
+  changed = [False]
+
+  class Sub(ast.NodeTransformer):
+    def visit_Name(self, n):
+      d = defs.get(n.id)
+      if d is None or n.id in keep or d.startswith(('unpack[', 'iter(', 'with(')) or not isinstance(n.ctx, ast.Load):
+        return n
+      try:
+        x = ast.parse(d, mode='eval').body
+      except SyntaxError:
+        return n
+      if n.id in {y.id for y in ast.walk(x) if isinstance(y, ast.Name)}:
+        return n
+      if isinstance(x, ast.Call) and isinstance(x.func, ast.Attribute) and x.func.attr in _MUT:
+        return n
+      changed[0] = True
+      return x
+  t = ast.parse(u(e), mode='eval').body
+  for _ in range(3):
+    changed[0] = False
+    t = Sub().visit(t)
+    if not changed[0]:
+      break
+  ast.fix_missing_locations(t)
+  return t
 
 
 def facts_at(g, facts, astnode):
@@ -545,3 +589,52 @@ def facts_imply(fs, required, atom_of):
         missing.append((label, {k: v for k, v in env.items() if not k.startswith('?')}))
         break
   return missing
+
+
+def format_sites(root):
+  """String-formatting expressions under `root`, whatever the spelling:
+  yields (node, template, operands) for `T.format(a, b)`, `T % (a, b)`,
+  f-strings and `a + '.' + b` concatenations; template has one `{}` per operand."""
+  out = []
+  for n in ast.walk(root):
+    if isinstance(n, ast.Call) and isinstance(n.func, ast.Attribute) and n.func.attr == 'format':
+      t = n.func.value
+      tmpl = t.value if isinstance(t, ast.Constant) and isinstance(t.value, str) else None
+      out.append((n, tmpl, list(n.args) + [k.value for k in n.keywords]))
+    elif isinstance(n, ast.BinOp) and isinstance(n.op, ast.Mod) and isinstance(n.left, ast.Constant) and isinstance(n.left.value, str):
+      ops = list(n.right.elts) if isinstance(n.right, ast.Tuple) else [n.right]
+      out.append((n, n.left.value.replace('%s', '{}').replace('%r', '{!r}').replace('%d', '{}'), ops))
+    elif isinstance(n, ast.JoinedStr):
+      tmpl, ops = '', []
+      for v in n.values:
+        if isinstance(v, ast.Constant):
+          tmpl += str(v.value)
+        else:
+          tmpl += '{}'
+          ops.append(v.value)
+      out.append((n, tmpl, ops))
+    elif isinstance(n, ast.BinOp) and isinstance(n.op, ast.Add) and not (isinstance(getattr(n, 'parent', None), ast.BinOp) and isinstance(n.parent.op, ast.Add)):
+      parts, stack = [], [n]
+      flat = []
+
+      def walk(e):
+        if isinstance(e, ast.BinOp) and isinstance(e.op, ast.Add):
+          walk(e.left)
+          walk(e.right)
+        else:
+          flat.append(e)
+      walk(n)
+      if any(isinstance(x, ast.Constant) and isinstance(x.value, str) for x in flat):
+        tmpl, ops = '', []
+        for x in flat:
+          if isinstance(x, ast.Constant) and isinstance(x.value, str):
+            tmpl += x.value
+          else:
+            tmpl += '{}'
+            ops.append(x)
+        out.append((n, tmpl, ops))
+    elif isinstance(n, ast.Call) and isinstance(n.func, ast.Attribute) and n.func.attr == 'join' and isinstance(n.func.value, ast.Constant) \
+        and isinstance(n.func.value.value, str) and len(n.args) == 1 and isinstance(n.args[0], (ast.List, ast.Tuple)):
+      ops = list(n.args[0].elts)
+      out.append((n, n.func.value.value.join('{}' for _ in ops), ops))
+  return out
